@@ -145,6 +145,9 @@ class IrqMonitor:
                 self._v("master_enable_not_cleared_or_mask_changed", imr_after=b["imr"], pushed_imr=p_imr)
             if not b["in_irq"]:
                 self._v("entry_without_in_interrupt_flag", pc=b["pc"])
+            if b["power"] != "running":
+                # a taken interrupt continues at the vector: the handler must be able to run
+                self._v("interrupt_taken_but_cpu_left_sleeping", power=b["power"], pc=b["pc"], executed=executed)
             if b["irq_total"] != a["irq_total"] + 1:
                 self._v("entry_without_counter", before=a["irq_total"], after=b["irq_total"])
             self.frames.append({"pc": p_pc, "f": p_f & 3, "imr": p_imr, "S": mid["S"] if reti_then_entry else s_before,
@@ -191,6 +194,10 @@ class IrqMonitor:
         if was_low_power and b["power"] != "running":
             self.stats["halt_steps"] += 1
             same = all(a[k] == b[k] for k in ("pc", "BA", "I", "X", "Y", "U", "S", "f"))
+            if a["isr"] & ~b["isr"] & 0x0F:
+                # nothing executes while asleep, so nothing can acknowledge a status bit
+                self._v("status_bit_dropped_while_sleeping", isr_before=a["isr"], isr_after=b["isr"], power=b["power"],
+                        in_handler=bool(self.frames))
             if not same:
                 self._v("halted_cpu_changed_state", a={k: a[k] for k in ("pc", "S", "BA")}, b={k: b[k] for k in ("pc", "S", "BA")})
             if a["isr"] != 0 and (self.kb_irq or (a["isr"] & ~0x04)):
